@@ -45,7 +45,7 @@ NEEDS = {
  "C02c-tcol-bytes-after-skip": ("C02", ["C02"], "a comment or single-quoted piece holding a multi-byte rune on the line of an opening double quote, and a continuation line indented deeper than the quote"),
  "C03c-ext-scratch-shared-per-type": ("C03", ["C03"], "a node with an extension statement that contains, later in its body, a descendant of the same node type with an extension of its own, in a process that built such a node before"),
  "C04c-postaugment-sweep-dedup-by-name": ("C04", ["C04"], "two revisions of a module loaded, an augment into the older one (import by revision-date) that collides or carries a bad body: the late error is never swept"),
- "C05c-prefix-memo-shared-by-family": ("C05", ["C05", "C09"], "a module and its submodule bind one prefix to two different modules and both resolve a typedef or identity base through it"),
+ "C05c-prefix-memo-shared-by-family": ("C05", ["C05", "C09", "C11"], "a module and its submodule bind one prefix to two different modules and both resolve a typedef or identity base through it"),
  "C06c-findgrouping-seen-owner": ("C06", ["C06"], "a submodule that includes a sibling and, inside a grouping it defines, uses a grouping defined at the top of its module"),
  "C07c-empty-dir-map-shared": ("C07", ["C07", "C06"], "grouping with a childless container or case used twice, then an augment into one copy"),
  "C08c-deviate-parent-cache-stale": ("C08", ["C08"], "one module: a deviation of P/x, then not-supported on P (or above), then a deviation of P/y with the same parent spelling: applied to the detached subtree, not reported"),
